@@ -16,6 +16,8 @@ type Call struct {
 	N   int    // bytes requested
 	Got int    // bytes transferred
 	OK  bool
+	Inj bool // the call failed with an injected fault
+	Pos int  // source position after the call
 }
 
 // Sink is an io.WriteCloser that records what it receives and fails the calls listed in Fail.
@@ -98,16 +100,20 @@ func (s *Source) Read(p []byte) (int, error) {
 	k := len(s.Calls) + 1
 	c := Call{Op: "read", K: k, N: len(p)}
 
+	c.Pos = s.Pos
 	if s.Fail[k] {
+		c.Inj = true
 		s.Calls = append(s.Calls, c)
 		return 0, ErrInjected
 	}
 
 	if s.Pos >= len(s.Data) {
-		s.Calls = append(s.Calls, c)
 		if s.FailAtEnd {
+			c.Inj = true
+			s.Calls = append(s.Calls, c)
 			return 0, ErrInjected
 		}
+		s.Calls = append(s.Calls, c)
 		return 0, io.EOF
 	}
 
@@ -124,12 +130,14 @@ func (s *Source) Read(p []byte) (int, error) {
 	}
 	copy(p, s.Data[s.Pos:s.Pos+n])
 	s.Pos += n
+	c.Pos = s.Pos
 	c.Got = n
 	c.OK = true
 	s.Calls = append(s.Calls, c)
 
 	if s.ErrWithData && s.Pos >= len(s.Data) {
 		if s.FailAtEnd {
+			s.Calls[len(s.Calls)-1].Inj = true
 			return n, ErrInjected
 		}
 		return n, io.EOF
